@@ -82,7 +82,7 @@ class NetSim(BaseEngine):
         return 'fault_enumeration'
 
     def tiers(self, prop):
-        return {'quick': 100_000, 'thorough': 3_000_000}
+        return {'quick': 100_000, 'thorough': 2_500_000}
 
     # ------------------------------------------------------------------ generation
     def gen(self, prop, seed, idx, tier):
